@@ -217,6 +217,59 @@ func (c *vfCodec) runViaStamp(id, cls, text string) {
 	c.n++
 }
 
+// a list value (Via, Route) is decoded, its top entry consumed the way the proxy does it (PopViaParam / PopRouteParam),
+// and then the SAME text - arriving in a later message - is decoded again: what the second decoding re-encodes must
+// still be the whole list (no decoded object is shared between two decodings)
+func (c *vfCodec) runAfterUse(id, cls, hdr, text string) {
+	var conc, re1 []vfAEnt
+	abs := vfAbsRoute
+	if hdr == "Via" {
+		abs = vfAbsVia
+	}
+	for _, p := range vfSplitTop(text, ',') {
+		conc = append(conc, abs(p))
+	}
+	errS := ""
+	pm := vfCatch(func() {
+		var s2 string
+		if hdr == "Via" {
+			v, err := ParseVia(text)
+			if err != nil {
+				errS = err.Error()
+				return
+			}
+			v.PopViaParam()
+			w, err := ParseVia(text)
+			if err != nil {
+				errS = "second decoding: " + err.Error()
+				return
+			}
+			s2 = w.String()
+		} else {
+			v, err := ParseRoute(text)
+			if err != nil {
+				errS = err.Error()
+				return
+			}
+			v.PopRouteParam()
+			w, err := ParseRoute(text)
+			if err != nil {
+				errS = "second decoding: " + err.Error()
+				return
+			}
+			s2 = w.String()
+		}
+		for _, p := range vfSplitTop(s2, ',') {
+			re1 = append(re1, abs(p))
+		}
+	})
+	if re1 == nil {
+		re1 = []vfAEnt{}
+	}
+	c.tr.Emit(vfM{"ev": "codec", "case": id, "cls": cls + " hdr=" + hdr + "AfterUse", "kind": "afteruse", "hdr": hdr, "conc": conc, "re1": re1, "re2": re1, "acc": vfM{}, "err": errS, "panic": pm})
+	c.n++
+}
+
 // CSeq = 1*DIGIT LWS Method: every spelling of the number (leading zeros) and of the separator is re-encoded as received
 func (c *vfCodec) runCSeq() {
 	k := 0
@@ -473,6 +526,9 @@ func TestVfCodec(t *testing.T) {
 			}
 			c.run(id, "via "+strings.Join(ps, ","), "Via", c.via(&a))
 			c.runViaStamp(id, "via "+strings.Join(ps, ","), c.via(&a))
+			if len(a.Ents) > 1 {
+				c.runAfterUse(id, "via "+strings.Join(ps, ","), "Via", c.via(&a))
+			}
 			return
 		}
 		ks := c.kindsFor(&a)
@@ -486,6 +542,9 @@ func TestVfCodec(t *testing.T) {
 				text = c.uri(&a)
 			}
 			c.run(id, vfAddrCls(&a), h, text)
+			if h == "Route" && a.Form == "nameaddr" && k%3 == 0 {
+				c.runAfterUse(id, vfAddrCls(&a), "Route", c.addr(&a)+c.pick(",", ", ")+c.addr(&a)+c.pick(",", " , ")+c.addr(&a))
+			}
 		}
 	})
 	// random beyond the bounds: 0-6 URI parameters, 0-3 URI headers, 0-5 header parameters, 1-5 Via entries with 0-8 parameters
@@ -534,6 +593,9 @@ func TestVfCodec(t *testing.T) {
 			}
 			c.run(id, "via-random", "Via", c.via(&a))
 			c.runViaStamp(id, "via-random", c.via(&a))
+			if len(a.Ents) > 1 {
+				c.runAfterUse(id, "via-random", "Via", c.via(&a))
+			}
 			continue
 		}
 		a := vfAddrAST{Kind: "addr", Form: c.pick("nameaddr", "nameaddr", "bare"), Disp: c.pick("none", "token", "quoted", "quotedpct"),
